@@ -15,6 +15,9 @@ def inputs(rng, tier):
         out.append(("p%d" % i, GP.source(g.program(), random.Random(i), plain=(i % 2 == 0)), "program"))
     for name, src in GM.corpus():
         out.append(("c:" + name, src, "corpus"))
+    # import paths and strings with characters that need escaping; heads with every flag
+    for i, path in enumerate(["dir/file.pn", "dir\\\\file.pn", "a\\\"b.pn", "tab\\tname.pn", "caf\\xc3\\xa9.pn", "core:text/char.pn"]):
+        out.append(("ip%d" % i, 'import "%s";\npub fn head%d(a: i32) -> i32;\npub extern fn ext%d(a: i32);\nextern fn priv%d();\nconst S: []char8 = "q\\"\\\\";\n' % (path, i, i, i), "escapes"))
     return out
 
 
